@@ -31,8 +31,18 @@ NEEDS = {
  'C19-transpose-fastpath-leaks-dir': 'query-marker selection with a scratch directory on a marker table that has no entries in one direction for some parent',
  'C20-is-exposed-parent-only': 'a cloud-safe run failing on a configured path inside a directory that does not exist (two missing trailing components)',
  'C20-bracketed-path-in-worker-error': 'cloud-safe mapping run failing through a worker failure: the new message puts the path right after "(name=" so the whitespace-splitting sanitiser does not see it',
+ 'C14-transpose-drain-join': 'parallel transposition: the failing worker is still in the pool when dispatch ends and a sibling finishes before it dies; crash after work (call returns normally) or mid-way after the scratch file was laid out (wrong transpose left at the output path)',
+ 'C14-stats-throttle-is-alive': 'reference statistics with exactly n_processors > 1 work loads: the failing worker is among the first to finish while the parent waits for a slot, and it fails after having written its buffer (two cooperating sites)',
+ 'C01-backfill-flat-parent-lookup': 'flatten or drop_level run on a taxonomy that re-uses a label at two levels with different parents, with a cell mapping through the shallower of the two',
+ 'C09-truncate-one-to-one-fastpath': 'collapsing to a coarser hierarchy that drops the leaf level when the new leaf level is one-to-one with the old one and its order differs from alphabetical cluster order',
+ 'C19-data-buffer-outside-workdir': 'reference statistics run with copy_data_over=True and an explicit scratch directory (library option, off by default)',
+ 'C19-revalidate-same-second-overwrites-input': 'validate a *_VALIDATED_<timestamp>.h5ad file again with output_dir = its own directory within the same clock second (two cooperating sites: name clean-up + "whatever is at the output path is mine")',
+ 'C04-transpose-skips-empty-worker-slices': 'parallel transposition with a worker count whose slice boundaries put a whole non-first slice inside a run of empty columns',
+ 'C04-refmarkers-merge-completion-order': 'reference markers with more chunks than workers and a later-launched worker finishing before an earlier one that is still running during submission (three cooperating edits)',
 }
 HISTORY = {
+ 'C19-revalidate-same-second-overwrites-input': 'OBSERVED MISS: the first evaluation reported a violation, but for the wrong reason (a false alarm of the freshly added chained-validation operation, see DESIGN section 0); with that corrected the change was MISSED because two validations of one file in one history, the second one chained and in the same simulated second, were generated in about 1% of the histories. The chained re-validation is now self-contained (it first produces the product it then validates, inside one operation) and twice as frequent; caught with 29 occurrences per quick run',
+ 'C19-data-buffer-outside-workdir': 'predicted miss (the statistics driver never set copy_data_over); the option is now drawn in C19 statistics operations',
  'C19-cleanup-after-output': 'OBSERVED MISS by the first version of C19 (parent I/O faults only reached the first 12 write events and no invalid input was planted); C19 was strengthened (fault position drawn over ALL write events of the clean run; invalid-input failure classes for mapping) and now catches it',
  'C03-topk-unsigned-votes': 'predicted miss (generated taxonomies had at most 10 leaves); wide taxonomies (36/48 leaves) were added to the world generator before the check was run against it',
  'C06-relative-norm-floor': 'predicted miss (C06 only used raw 64-bit queries); declared-normalised queries with outlier cells and 32-bit floats were added before the check was run against it',
